@@ -95,10 +95,8 @@ Qed.
 Print Assumptions gen_encode_dict_is_block.
 
 (* ---- 1b. encode_dict: what follows the header, and fastparquet's own reader ------------------------------------ *)
-(* the created_by-keyed shortcut of the page readers views the whole-byte indices as SIGNED integers ('int%i' % bit_width) *)
-Definition signed_view (k : nat) (v : N) : Z :=
-  if v <? 2 ^ (8 * N.of_nat k - 1) then Z.of_N v else (Z.of_N v - 2 ^ (8 * Z.of_nat k))%Z.
-
+(* the created_by-keyed shortcut of the page readers views the whole-byte indices as SIGNED integers ('int%i' % bit_width):
+   Impl/Dispatch.signed_view *)
 Theorem gen_encode_dict_own_reader : forall k codes,
   (k = 1 \/ k = 2 \/ k = 4)%nat -> N.of_nat (length codes) < 2 ^ 62 ->
   Forall (fun c => c < 2 ^ (8 * N.of_nat k - 1)) codes ->
